@@ -3,7 +3,9 @@
 
   The front end is parameterised by the backend operation table (`Backend`), whose operations
   may fail.  For every operation:
-  `encode_failure`        backend encode fails ⇒ encode returns that (negative) code;
+  `encode_failure`        backend encode fails ⇒ encode returns that (negative) code, for every input
+                          the size guard lets through (`encode_failure_total`: the guard's
+                          EINVALIDPARAMS otherwise, the backend is then not reached);
   `decode_failure`        backend decode fails (on the slow path, the only place it is called) ⇒
                           decode returns that code, for every fragment list and force flag;
   `reconstruct_failure`   backend reconstruct fails ⇒ reconstruct returns that code;
@@ -25,13 +27,26 @@ import LecProps.C14
 namespace LecProps.C17
 open Lec
 
+/-- every input: the size guard refuses first (before the backend is called), otherwise the backend's
+    failure is what encode returns. -/
+theorem encode_failure_total (env : Env) (be : Backend) (i : Inst) (data : Bytes) (e : Fail)
+    (h : be.encode (splitLoop i.k (blockSize i data.length) data)
+          (List.replicate i.m (zeros (blockSize i data.length))) (blockSize i data.length) = .error e) :
+    encode env be i data =
+      if encodeTooLarge i data.length then .error (.rc (-EINVALIDPARAMS)) else .error e := by
+  unfold encode
+  unfold blockSize at h
+  split
+  · rfl
+  · simp only [bind, Except.bind, h]
+
+/-- every input the size guard lets through (the backend is not reached for the others). -/
 theorem encode_failure (env : Env) (be : Backend) (i : Inst) (data : Bytes) (e : Fail)
+    (hg : encodeTooLarge i data.length = false)
     (h : be.encode (splitLoop i.k (blockSize i data.length) data)
           (List.replicate i.m (zeros (blockSize i data.length))) (blockSize i data.length) = .error e) :
     encode env be i data = .error e := by
-  unfold encode
-  unfold blockSize at h
-  simp only [bind, Except.bind, h]
+  rw [encode_failure_total env be i data e h, hg]; rfl
 
 theorem decodeSlow_failure (env : Env) (be : Backend) (i : Inst) (frags : List Bytes) (fragLen : Nat)
     (d p : List (Option Bytes)) (missing : List Nat) (d' p' : List Bytes) (orig psize : Int) (e : Fail)
@@ -126,6 +141,7 @@ theorem fault_ledger (nullBe : Bool) (op n : Nat) (hop : op < 5) (hn : n < 3) :
   rw [← h2]; simp
 
 #print axioms encode_failure
+#print axioms encode_failure_total
 #print axioms decodeSlow_failure
 #print axioms decode_failure
 #print axioms reconstruct_failure
